@@ -68,3 +68,16 @@ def func_fingerprint(*objs):
             h = '?'
         out.append('%s.%s@%s' % (getattr(o, '__module__', '?'), getattr(o, '__qualname__', repr(o)), h))
     return out
+
+
+def fresh_parser(**kw):
+    """a Parser whose lexer and LALR tables are generated from the current sources in this process
+    (never read from a cached tab module), keeping full production objects"""
+    from calmjs.parse.parsers import es5
+    tag = '%d_%d' % (os.getpid(), len(_fresh))
+    _fresh.append(tag)
+    return es5.Parser(yacc_optimize=False, lex_optimize=False, yacctab='vp_fresh_yacctab_' + tag,
+                      lextab='vp_fresh_lextab_' + tag, **kw)
+
+
+_fresh = []
